@@ -84,3 +84,5 @@ func swarmConfig(r *Rnd, seed uint64, estLen int) simrt.Config {
 }
 
 var stratNames = []string{"serial", "random", "pct", "sticky"}
+
+func simrtSerial() simrt.Config { return simrt.Config{Seed: 1, Strategy: simrt.StratSerial} }
